@@ -15,6 +15,7 @@ type opts struct {
 	seed                        int64
 	bindings, max, maxslow      int
 	scalars, codecall           bool
+	lastop                      string
 }
 
 var drivers = map[string]func(o opts, res *core.Result) error{
@@ -43,6 +44,7 @@ func main() {
 	fs.IntVar(&o.maxslow, "maxslow", 0, "same for slow groups")
 	fs.BoolVar(&o.scalars, "scalars", false, "one group per scalar implementation")
 	fs.BoolVar(&o.codecall, "codecall", false, "cycle codec paths over bindings")
+	fs.StringVar(&o.lastop, "lastop", "", "pickembed: only behaviours ending in this op")
 	_ = fs.Parse(os.Args[2:])
 	res := core.NewResult(o.prop)
 	f, ok := drivers[drv]
